@@ -77,6 +77,8 @@ type Model struct {
 	SparseMeta bool `json:"sparse_meta,omitempty"`
 	// Scaled names the dimension along which InflateGraph scaled the model up ("" = not scaled); informational.
 	Scaled string `json:"scaled,omitempty"`
+	// Named: "<family>:<kind of name>" when two names were renamed to a special pair (names.go); informational
+	Named string `json:"special_names,omitempty"`
 	// PadLines blank lines are written in front of type number PadBefore (renderer; layout only, no meaning)
 	PadLines  int `json:"pad_lines,omitempty"`
 	PadBefore int `json:"pad_before,omitempty"`
@@ -94,7 +96,7 @@ func (r *Rewrite) Clone() *Rewrite {
 }
 
 func (m *Model) Clone() *Model {
-	c := &Model{Schema: m.Schema, SparseMeta: m.SparseMeta, Scaled: m.Scaled, PadLines: m.PadLines, PadBefore: m.PadBefore}
+	c := &Model{Schema: m.Schema, SparseMeta: m.SparseMeta, Scaled: m.Scaled, PadLines: m.PadLines, PadBefore: m.PadBefore, Named: m.Named}
 	for _, t := range m.Types {
 		ct := TypeDef{Name: t.Name, Module: t.Module, File: t.File}
 		for _, r := range t.Rels {
